@@ -14,18 +14,18 @@ def register(reg):
     L("lemma:c07_closed_cannot_encrypt", params={"kf": "ref:KeyFile", "text": "str|bytes", "secret": "ref:SecureValue"}, props=("C07",),
       requires={"closed": "kf._KeyFile__refcount == 0 and implies(kf._KeyFile__refcount == 0, not truthy(kf._KeyFile__key))",
                 "shape": "len(secret) == 2 and typeis(secret.ciphertext, 'bytes')"})
-    L("lemma:c08_xor_involution", params={"key": "bytes", "data": "bytes"}, props=("C08", "C02", "C19"),
+    L("lemma:c08_xor_involution", params={"key": "bytes", "data": "bytes"}, props=("C08", "C02", "C03", "C19"),
       requires={"key32": "len(key) == 32"})
-    L("lemma:c08_aes_roundtrip", params={"key": "bytes", "data": "bytes"}, props=("C08", "C02", "C19"),
+    L("lemma:c08_aes_roundtrip", params={"key": "bytes", "data": "bytes"}, props=("C08", "C02", "C03", "C19"),
       requires={"key32": "len(key) == 32", "aes": "AES_AVAILABLE"})
-    L("lemma:c08_aes_never_raises_on_own_output", params={"key": "bytes", "data": "bytes"}, props=("C08", "C02", "C19"),
+    L("lemma:c08_aes_never_raises_on_own_output", params={"key": "bytes", "data": "bytes"}, props=("C08", "C02", "C03", "C19"),
       requires={"key32": "len(key) == 32", "aes": "AES_AVAILABLE"})
-    L("lemma:c08_aes_fresh_iv", params={"key": "bytes", "data": "bytes"}, props=("C08", "C02", "C19"),
+    L("lemma:c08_aes_fresh_iv", params={"key": "bytes", "data": "bytes"}, props=("C08", "C02", "C03", "C19"),
       requires={"key32": "len(key) == 32", "aes": "AES_AVAILABLE"})
-    L("lemma:c08_keyfile_roundtrip_xor", params={"kf": "ref:KeyFile", "text": "str|bytes", "method": "any"}, props=("C08", "C02", "C19"),
+    L("lemma:c08_keyfile_roundtrip_xor", params={"kf": "ref:KeyFile", "text": "str|bytes", "method": "any"}, props=("C08", "C02", "C03", "C19"),
       requires={"open": "truthy(kf._KeyFile__key) and len(kf._KeyFile__key) == 32",
                 "xor": "method == 'xor' or (method == 'best' and not AES_AVAILABLE)"})
-    L("lemma:c08_keyfile_roundtrip_aes", params={"kf": "ref:KeyFile", "text": "str|bytes", "method": "any"}, props=("C08", "C02", "C19"),
+    L("lemma:c08_keyfile_roundtrip_aes", params={"kf": "ref:KeyFile", "text": "str|bytes", "method": "any"}, props=("C08", "C02", "C03", "C19"),
       requires={"open": "truthy(kf._KeyFile__key) and len(kf._KeyFile__key) == 32",
                 "aes": "AES_AVAILABLE and (method == 'aes' or method == 'best')"})
 
